@@ -94,22 +94,25 @@ def r3(ctx):
     ctx.touch(fn)
     types = pdb.enum("rtr_interval_type")
     off = {o: n for (n, o, s) in rfc8210.PDU[7][2]}
-    calls = fn.calls("rtr_check_interval_option")
+    calls = []
+    for c in fn.calls("rtr_check_interval_option"):
+        rows = es.table_rows(fn, c)     # one call per row of a local (value, type) table stands for that many calls
+        calls += [(c, r) for r in rows] if rows else [(c, [vf.expr(fn, a) for a in c.args])]
     ctx.floor("C17.R3", len(calls), 3)
     seen_types = set()
     ign = pdb.enum_value("RTR_INTERVAL_MODE_IGNORE_ANY")
-    for c in calls:
+    for c, cargs in calls:
         G = es.Guards(fn, c)
         v1 = bool(G.find_eq(lambda x: x[0] == "load" and (vf.last_field(x[1]) or "").endswith(".ver"), lambda y: y == ("c", 1)))
         notign = G.ne(("load", ("fld", SOCK, "rtr_socket.iv_mode")), ("c", ign))
-        mode_ok = vf.expr(fn, c.args[1]) == ("load", ("fld", SOCK, "rtr_socket.iv_mode")) and vf.expr(fn, c.args[0]) == SOCK
-        ve = vf.expr(fn, c.args[2])
+        mode_ok = cargs[1] == ("load", ("fld", SOCK, "rtr_socket.iv_mode")) and cargs[0] == SOCK
+        ve = cargs[2]
         fld = vf.last_field(ve[1]) if ve[0] == "load" else None
         foff = None
         if fld:
             sname, fname = fld.split(".", 1)
             foff = pdb.field(sname, fname)["off"]
-        te = vf.expr(fn, c.args[3])
+        te = cargs[3]
         tname = {v: k for k, v in types.items()}.get(te[1]) if te[0] == "c" else None
         rfcname = off.get(foff)
         pair_ok = rfcname in TYPE and tname == TYPE[rfcname]
@@ -221,22 +224,51 @@ def r5(ctx, retsets):
         cands = [v for v, b in t["inc"]]
     elif t is not None and t.op == "select":
         cands = [t["a"], t["b"]]
-    exprs = [vf.expr(fn, v) for v in cands]
+    def lin(e, sign=1, acc=None):
+        """the expression as a sum of terms with integer coefficients (however the additions and subtractions are grouped)"""
+        acc = {} if acc is None else acc
+        if e[0] == "cast":
+            return lin(e[2], sign, acc)
+        if e[0] == "c":
+            acc[("k",)] = acc.get(("k",), 0) + sign * e[1]
+        elif e[0] == "bin" and e[1] in ("add", "sub"):
+            lin(e[2], sign, acc)
+            lin(e[3], sign if e[1] == "add" else -sign, acc)
+        else:
+            acc[e] = acc.get(e, 0) + sign
+        return {k: v for k, v in acc.items() if v}
+    exprs = []
+    seenphi = set()
+
+    def leaves(v):
+        e = vf.expr(fn, v)
+        if e[0] == "phi" and e[1] not in seenphi:
+            seenphi.add(e[1])
+            for vv, bb in fn.insts[e[1]]["inc"]:
+                leaves(vv)
+        else:
+            exprs.append(e)
+    for v in cands:
+        leaves(v)
     zero = [e for e in exprs if e == ("c", 0)]
-    diff = [e for e in exprs if e[0] == "bin" and e[1] == "sub"]
-    if zero and diff and len(exprs) == 2:
+    diff = [e for e in exprs if e != ("c", 0)]
+    if zero and diff and len({str(lin(e)) for e in diff}) == 1:
         d = diff[0]
-        sum_ok = d[2][0] == "bin" and d[2][1] == "add" and {d[2][2], d[2][3]} == {lu, ri}
-        now_ok = d[3][0] == "load" and d[3][1][0] == "alloca"
-        clk = [k for k in fn.calls("lrtr_get_monotonic_time") if vf.expr(fn, k.args[0]) == (d[3][1] if now_ok else None) and fn.dom(k, c)]
+        L = lin(d)
+        nows = [k for k, v in L.items() if v == -1]
+        sum_ok = len(L) == 3 and L.get(lu) == 1 and L.get(ri) == 1 and len(nows) == 1
+        now = nows[0] if nows else ("?",)
+        now_ok = now[0] == "load" and now[1][0] == "alloca"
+        clk = [k for k in fn.calls("lrtr_get_monotonic_time") if vf.expr(fn, k.args[0]) == (now[1] if now_ok else None) and fn.dom(k, c)]
         # clamp: zero is chosen exactly when the difference is negative
         clamp = False
         for g, tr, br in es.guards_of(fn, c) if False else []:
             pass
         for i in fn.all_insts():
-            if i.op == "icmp" and i["pred"] in ("slt", "sgt", "sle", "sge") and (vf.expr(fn, i["a"]) == d or vf.expr(fn, i["b"]) == d):
-                other = vf.expr(fn, i["b"]) if vf.expr(fn, i["a"]) == d else vf.expr(fn, i["a"])
-                if other == ("c", 0):
+            if i.op == "icmp" and i["pred"] in ("slt", "sgt", "sle", "sge"):
+                # the sign of the difference is what is tested, whichever way the comparison is written
+                cmpd = lin(("bin", "sub", vf.expr(fn, i["a"]), vf.expr(fn, i["b"])))
+                if cmpd == L or cmpd == {k: -v for k, v in L.items()}:
                     clamp = True
         good = sum_ok and now_ok and bool(clk) and clamp
         detail = "wait = %s, clamped at 0: %s, now read from the clock: %s" % (vf.show(d), clamp, bool(clk))
